@@ -198,25 +198,35 @@ GetContextPos(l, n) == ScanContext(l, n, 1)
 GetContext(l, n) == LET r == GetContextPos(l, n) IN
                     [kind |-> r.kind, tags |-> IF r.kind \in {"tag", "group"} THEN SubSeq(l, r.from, r.to) ELSE <<>>]
 
-\* declarative counterpart, in terms of Balanced only
-TopLevel(l, i) == Depth(l, i - 1) = 0 /\ Balanced(SubSeq(l, 1, i - 1))
-Hit(l, n, i) == TopLevel(l, i) /\ l[i].num = n /\ l[i].cls \in {CTX, OPN}
-FirstHit(l, n) == LET H == {i \in 1..Len(l) : Hit(l, n, i)} IN IF H = {} THEN 0 ELSE CHOOSE i \in H : \A k \in H : i <= k
+\* declarative counterpart, in terms of Balanced only.  D is the depth profile DepthVec(l), computed once;
+\* BalancedIn(D, a, b) is Balanced(SubSeq(l, a, b)) read off the profile.
+\* (TLC applies a function constructor lazily, re-evaluating its body at every application: Mat forces a tuple)
+Mat(f) == <<>> \o f
+DepthVec(l) == Mat([i \in 1..(Len(l) + 1) |-> Depth(l, i - 1)])          \* D[k + 1] = depth after k tags
+BalancedIn(D, a, b) == (\A k \in a..b : D[k + 1] >= D[a]) /\ D[b + 1] = D[a]
+BalancedInOK(l) == LET D == DepthVec(l) IN
+                   \A a \in 1..(Len(l) + 1) : \A b \in (a - 1)..Len(l) : BalancedIn(D, a, b) <=> Balanced(SubSeq(l, a, b))
+TopLevel(D, i) == BalancedIn(D, 1, i - 1)
 \* positions j that close a balanced group opened at i
-Closers(l, i) == {j \in (i + 1)..Len(l) : l[j].cls = CLS /\ Balanced(SubSeq(l, i + 1, j - 1))}
+Closers(l, D, i) == {j \in (i + 1)..Len(l) : l[j].cls = CLS /\ BalancedIn(D, i + 1, j - 1)}
 \* the scan stumbles at k: a top-level closing tag, or a top-level opening tag whose group never closes
-Stumble(l, k) == TopLevel(l, k) /\ (l[k].cls = CLS \/ (l[k].cls = OPN /\ Closers(l, k) = {}))
-GetContextDecl(l, n) ==
-    LET h == FirstHit(l, n)
-        S == {k \in 1..Len(l) : Stumble(l, k) /\ (h = 0 \/ k <= h)}
+Stumble(l, D, k) == TopLevel(D, k) /\ (l[k].cls = CLS \/ (l[k].cls = OPN /\ Closers(l, D, k) = {}))
+Least(S) == CHOOSE i \in S : \A k \in S : i <= k
+GetContextDeclD(l, D, n) ==
+    LET H == {i \in 1..Len(l) : TopLevel(D, i) /\ l[i].num = n /\ l[i].cls \in {CTX, OPN}}       \* top-level elements with context n
+        h == IF H = {} THEN 0 ELSE Least(H)
+        S == {k \in 1..(IF h = 0 THEN Len(l) ELSE h) : Stumble(l, D, k)}
     IN  IF S # {} THEN Pos("invalid", 0, 0)
         ELSE IF h = 0 THEN Pos("none", 0, 0)
         ELSE IF l[h].cls = CTX THEN Pos("tag", h, h)
-        ELSE LET j == CHOOSE j \in Closers(l, h) : \A k \in Closers(l, h) : j <= k IN Pos("group", h + 1, j - 1)
-ContextIffBalanced(l, n) ==
-    /\ GetContextPos(l, n) = GetContextDecl(l, n)
-    /\ LET r == GetContextPos(l, n) IN r.kind = "group" => Balanced(SubSeq(l, r.from, r.to))
-    /\ (Balanced(l) => GetContextPos(l, n).kind # "invalid")
+        ELSE Pos("group", h + 1, Least(Closers(l, D, h)) - 1)
+GetContextDecl(l, n) == GetContextDeclD(l, DepthVec(l), n)
+ContextIffBalancedD(l, D, n) ==
+    LET r == GetContextPos(l, n) IN
+    /\ r = GetContextDeclD(l, D, n)
+    /\ r.kind = "group" => BalancedIn(D, r.from, r.to)
+    /\ BalancedIn(D, 1, Len(l)) => r.kind # "invalid"
+ContextIffBalanced(l, n) == ContextIffBalancedD(l, DepthVec(l), n)
 
 \* Any.decode: take tags up to (not including) the first closing tag that has no partner; error if an opening
 \* tag is still open at the end.   [ok, taken]
@@ -227,11 +237,13 @@ AnyFrom(l, i, lvl) ==
     ELSE IF l[i].cls = CLS THEN (IF lvl = 0 THEN [ok |-> TRUE, taken |-> i - 1] ELSE AnyFrom(l, i + 1, lvl - 1))
     ELSE AnyFrom(l, i + 1, lvl)
 AnyTake(l) == AnyFrom(l, 1, 0)
-AnyTakeDecl(l) ==
-    LET N == {i \in 1..Len(l) : Depth(l, i) < 0} IN
-    IF N # {} THEN [ok |-> TRUE, taken |-> (CHOOSE i \in N : \A k \in N : i <= k) - 1]
-    ELSE [ok |-> Depth(l, Len(l)) = 0, taken |-> IF Depth(l, Len(l)) = 0 THEN Len(l) ELSE 0]
-AnyIffBalanced(l) ==
-    /\ AnyTake(l) = AnyTakeDecl(l)
-    /\ AnyTake(l).ok => Balanced(SubSeq(l, 1, AnyTake(l).taken))
+AnyTakeDeclD(l, D) ==
+    LET N == {i \in 1..Len(l) : D[i + 1] < 0} IN
+    IF N # {} THEN [ok |-> TRUE, taken |-> Least(N) - 1]
+    ELSE [ok |-> D[Len(l) + 1] = 0, taken |-> IF D[Len(l) + 1] = 0 THEN Len(l) ELSE 0]
+AnyIffBalancedD(l, D) ==
+    LET r == AnyTake(l) IN
+    /\ r = AnyTakeDeclD(l, D)
+    /\ r.ok => BalancedIn(D, 1, r.taken)
+AnyIffBalanced(l) == AnyIffBalancedD(l, DepthVec(l))
 =============================================================================
